@@ -3,7 +3,7 @@ use std::fmt;
 
 use super::declarations::Declarations;
 use super::ir::*;
-use super::degree_meta::{Degree, DegreeEnvironment, DegreeMeta};
+use super::degree_meta::{Degree, DegreeEnvironment, DegreeMeta, DegreeRange};
 use super::type_meta::TypeMeta;
 use super::value_meta::{ValueEnvironment, ValueMeta};
 use super::variable_meta::{VariableMeta, VariableUse, VariableUses};
@@ -59,6 +59,11 @@ impl Statement {
                 if env.is_local(var) {
                     if let Some(range) = rhe.degree() {
                         result = result || env.set_degree(var, range);
+                    } else {
+                        // The degree of the right-hand side is unknown (so far). This is
+                        // recorded explicitly, since a missing degree means that an array
+                        // has not been assigned to when determining the degree of updates.
+                        env.set_degree(var, &DegreeRange::new(Constant, NonQuadratic));
                     }
                 }
                 result
